@@ -26,15 +26,9 @@ func c09(c *Ctx) {
 	// ---- tmp names (P1 of the publication protocol) + listings ----
 	c.ltxPublicationNames()
 	rl := "litefs.(*DB).ReadLTXDir"
-	c.Guarded("tmp/ReadLTXDir-filters", rl, p.PlainCalls("builtin.append"), gs(GP("(ltx.ParseFilename(os.DirEntry.Name(@@))#2 == nil)", false)), 1,
-		"ReadLTXDir drops exactly the entries whose name ltx.ParseFilename rejects", "temporary files are never mistaken for transactions")
-	rd := `litefs.OS.ReadDir(p0.os, "READLTXDIR", litefs.(*DB).LTXDir(p0))`
-	c.OnlyGuards("tmp/ReadLTXDir-filters-all", rl, p.PlainCalls("builtin.append"), []*Guard{
-		GP("(ltx.ParseFilename(os.DirEntry.Name(@@))#2 == nil)", false), GP("(ltx.ParseFilename(os.DirEntry.Name(@@))#2 == nil)", true),
-		GP("os.IsNotExist("+rd+"#1)", false), GP("("+rd+"#1 == nil)", true), G(`\(.* < builtin\.len\(.*\)\)`, true),
-	}, 1, "every entry whose name does not parse is dropped - no further condition", "a *.tmp (or any other non-transaction) name kept in the listing is taken for the newest transaction by retention")
-	c.ExpectAll("tmp/ReadLTXDir-reexamines-slot", c.CallArgs(rl, p.PlainCalls("ltx.ParseFilename"), 0), pat("os.DirEntry.Name(@@[phi((phi((↺ - 1)) + 1)|0)])"), 1,
-		"after an entry was removed in place the loop index is stepped back so that the entry that moved into the slot is examined too", "two adjacent non-transaction names (e.g. two leftover *.tmp files) would otherwise leave the second in the listing, where retention takes it for the newest transaction and deletes the real one")
+	// (ReadLTXDir's own filtering of unparsable names is no longer required: since F26 its only consumer,
+	// EnforceRetention, skips such names itself in both of its loops - see retention/decision and
+	// retention/latest-selection - so an edit that drops the filter leaves behaviour unchanged.)
 	c.Before("tmp/ReadLTXDir-sorted", rl, func(in ssaInstr) bool { return p.SuccessReturn(in) && len(Instrs(in.Parent(), p.PlainCalls("sort.Slice"))) > 0 && in.Block().Index > 3 }, p.PlainCalls("sort.Slice"), 1,
 		"the listing is sorted by name before it is returned", "retention's 'newest file' is the last element")
 	c.Expect("tmp/ReadLTXDir-order", joinS(c.returnsOf(c.closureArgName(rl, p.PlainCalls("sort.Slice"), 1))), pat("(os.DirEntry.Name(@@[p0]) < os.DirEntry.Name(@@[p1]))"), "sorted ascending by file name (zero-padded hex TXIDs: by TXID)", "")
